@@ -5,7 +5,11 @@ sub-family where Mathlib proves a closed form; the exact output is decided again
 (Mp.SpecRef.specCheck, sound by Props/C22.lean).  Arguments outside the sub-family are counted, not decided.
 Non-terminating pFq series are decided against the exact partial sum + checked geometric tail bound
 `Mp.SpecRef.hypEncl`, negative integer degrees of legendre/chebyt/chebyu against the reflected recurrences, by
-`mpdrv spec2/specc2` (sound by Props/C22b.lean)."""
+`mpdrv spec2/specc2` (sound by Props/C22b.lean).
+The non-terminating class draws every parameter with a hypsum type Z / Q / R (one generated summator per type signature).
+Complex arguments / complex parameters (the complex summators, types Z / Q / R / C) are decided in exact rational arithmetic
+against the defining series summed over Q(i) with a checked tail bound (harness/special_pyref.py, not Lean-verified; compared
+with `hypEncl` on the real and the imaginary axis in every run)."""
 import special_ops
 
 LEVEL = "translation_validation"
